@@ -129,7 +129,10 @@ def to_ast(partial_asts):
                               'extends': _ref(item.extends, rx) if item.extends else None,
                               'fields': [_field(f, rx) for f in item.fields]})
             elif isinstance(item, (A.AstStructPatch, A.AstUnionPatch)):
-                raise Unmodelled('patch')
+                is_struct = isinstance(item, A.AstStructPatch)
+                decls.append({'k': 'patch', 'name': item.name, 'struct': is_struct,
+                              'closed': False if is_struct else bool(item.closed),
+                              'fields': [_field(f, rx) for f in item.fields]})
             elif isinstance(item, A.AstAlias):
                 decls.append({'k': 'alias', 'name': item.name, 'ref': _ref(item.type_ref, rx)})
             elif isinstance(item, A.AstRouteDef):
@@ -249,6 +252,9 @@ TEMPLATES = [
     (r"Route %s at version -?\d+ already defined" % Q, 'routeVersionDefined'),
     (r"Name of .* conflicts with name of", 'nameConflict'),
     (r"Cannot redefine built-in annotation type", 'builtinAnnotation'),
+    (r"Patch %s must correspond to a pre-existing data_type\." % Q, 'patchNoTarget'),
+    (r"Type mismatch\. Patch %s corresponds to" % Q, 'patchMismatch'),
+    (r"Patched field %s overrides pre-existing field" % Q, 'patchFieldClash'),
     (r"Cannot import current namespace\.", 'importSelf'),
     (r"Namespace %s is not defined in any spec\." % Q, 'importUndefined'),
     (r"Circular import of namespaces", 'importCircular'),
@@ -369,6 +375,14 @@ def judge_members(partial_asts, api):
         s.update(sig)
         P.append(('C02: ' + what, s, detail))
 
+    def canon(name, ns):
+        return name.replace('_', '').replace('/', '').lower() + '/' + ns.replace('_', '').lower()
+
+    patched = {}            # canonical name -> members added by patches, in file / declaration order
+    for desc in partial_asts:
+        for item in desc[1:]:
+            if isinstance(item, (A.AstStructPatch, A.AstUnionPatch)):
+                patched.setdefault(canon(item.name, desc[0].name), []).extend(item.fields)
     declared = {}
     for desc in partial_asts:
         nsn = desc[0].name
@@ -437,7 +451,9 @@ def judge_members(partial_asts, api):
             if isinstance(d, dt.Union) != is_union:
                 bad('kind', 'a declared struct is a union in the Api or the reverse', {'type': me})
                 continue
-            names = [f.name for f in item.fields]
+            # specs_to_ir appended the patch members to item.fields of ITS OWN parse; `partial_asts` is a second parse
+            decl_fields = list(item.fields) + patched.get(canon(item.name, nsn), [])
+            names = [f.name for f in decl_fields]
             have = [f.name for f in d.fields]
             implicit = []
             if is_union and not item.closed and (d.parent_type is None or d.parent_type.closed):
@@ -447,7 +463,7 @@ def judge_members(partial_asts, api):
                     'the implicit `other` of an open union that inherits none)',
                     {'type': me, 'declared': names, 'implicit': implicit, 'api': have}, of='union' if is_union else 'struct')
                 continue
-            for af, f in zip(item.fields, d.fields):
+            for af, f in zip(decl_fields, d.fields):
                 if isinstance(af, A.AstVoidField):
                     if not isinstance(f.data_type, dt.Void):
                         bad('member-type', 'a tag declared without a type is not Void in the Api',
@@ -776,6 +792,22 @@ SEEDS = [
     ('forward-parent-2ns-same-name', [('a.stone', _ns('import nb\n\nstruct S extends nb.T\n    x X\n\nstruct X\n    a String\n\nunion V extends nb.U\n    c X\n')),
                                       ('b.stone', _ns('struct T\n    f X\n    l List(X?)\n\nstruct X\n    b Int32\n\nunion U\n    u X\n', 'nb'))], 'ok'),
     ('circular-union', [('a.stone', _ns('union A extends B\n    a\n\nunion B extends A\n    b\n'))], 'circular'),
+    ('patch-ok', [('a.stone', _ns('struct S\n    x String\n\nunion U\n    a\n\nunion_closed V\n    b\n')),
+                  ('a2.stone', _ns('patch struct S\n    y Int32\n\npatch union U\n    c S\n\npatch union_closed V\n    d\n\npatch struct S\n    z S?\n'))], 'ok'),
+    ('patch-canonical-ok', [('a.stone', _ns('struct Foo_Bar\n    x String\n\npatch struct FooBar\n    y Int32\n'))], 'ok'),
+    ('patch-before-type-ok', [('a0.stone', _ns('patch struct S\n    y T\n')), ('a1.stone', _ns('struct S\n    x String\n\nstruct T extends S\n    w String\n'))], 'ok'),
+    ('patchNoTarget', [('a.stone', _ns('patch struct S\n    y Int32\n'))], 'patchNoTarget'),
+    ('patchNoTarget-other-ns', [('a.stone', _ns('patch struct S\n    y Int32\n')), ('b.stone', _ns('struct S\n    x String\n', 'nb'))], 'patchNoTarget'),
+    ('patchMismatch-kind', [('a.stone', _ns('union S\n    a\n\npatch struct S\n    y Int32\n'))], 'patchMismatch'),
+    ('patchMismatch-closed', [('a.stone', _ns('union S\n    a\n\npatch union_closed S\n    y Int32\n'))], 'patchMismatch'),
+    ('patchMismatch-alias', [('a.stone', _ns('alias S = String\n\npatch struct S\n    y Int32\n'))], 'patchMismatch'),
+    ('patchMismatch-route', [('a.stone', _ns('route s(Void, Void, Void)\n\npatch struct s\n    y Int32\n'))], 'patchMismatch'),
+    ('patchMismatch-namespace', [('a.stone', _ns('patch struct na\n    y Int32\n'))], 'patchMismatch'),
+    ('patchFieldClash', [('a.stone', _ns('struct S\n    x String\n\npatch struct S\n    x Int32\n'))], 'patchFieldClash'),
+    ('patchFieldClash-two-patches', [('a.stone', _ns('struct S\n    x String\n\npatch struct S\n    y Int32\n')), ('a2.stone', _ns('patch struct S\n    y Int64\n'))], 'patchFieldClash'),
+    ('patch-member-of-ancestor', [('a.stone', _ns('struct P\n    x String\n\nstruct S extends P\n    y String\n\npatch struct S\n    x Int32\n'))], 'parentField'),
+    ('patch-member-twice-in-patch', [('a.stone', _ns('struct S\n    x String\n\npatch struct S\n    y Int32\n    y Int64\n'))], 'dupField'),
+    ('patch-undefined-type', [('a.stone', _ns('struct S\n    x String\n\npatch struct S\n    y T\n'))], 'undefinedSymbol'),
     ('qualified-builtin', [('a.stone', _ns('import nb\n\nstruct T\n    y String\n\nstruct S\n    x nb.List(T)\n')),
                            ('b.stone', _ns('struct T\n    z Int32\n', 'nb'))], 'ok'),
     ('two-files-one-ns', [('a1.stone', _ns('struct S\n    x T\n    l List(A, min_items=1, max_items=3)?\n')),
@@ -799,9 +831,9 @@ def suite_seeds(ck, legal_report=False):
 
 
 def gen_model(rng, preset):
-    """a specgen model without patches (outside the model's input; C02's faithful suite covers them)"""
+    """a specgen model (patches included since the model merges them)"""
     from harness import specgen as sg
-    return sg.gen_model(rng, {'base': preset, 'name': preset, 'p_patch': 0.0})
+    return sg.gen_model(rng, preset)
 
 
 def suite_generated(ck, n_models, legal_report=False):
